@@ -159,6 +159,7 @@ class SiestaIn:
 
     def __init__(self, lines):
         """Init method."""
+        self._tags = self._tags.copy()
         self._collect(lines)
 
     def _collect(self, lines):
